@@ -274,6 +274,11 @@ __wday_ht(
 	unsigned int y, unsigned int m, unsigned int d)
 {
 	const mjd_t j = ht2mjd(cal, nm, (struct ymd_s){y, m, d});
+
+	if (UNLIKELY(!j)) {
+		/* not a date we know about */
+		return MIR;
+	}
 	return (echs_wday_t)(((j + 1U) % 7U) + 1U);
 }
 
